@@ -65,4 +65,9 @@ CONFIG = {
         "thorough": {'checks': 600000, 'shards': 14, 'timeout': 3600, 'shrinktime': '60s'},
         "assumptions": ["Renderer values (writeJson, includeIfExists' hidden bool) are kept out of render sites", 'the custom escaper is chunk-homomorphic (byte-wise)', 'safeJs is compared against text/template.JSEscape'],
     },
+    'C05': {
+        "quick": {'checks': 10000, 'shards': 4, 'timeout': 900},
+        "thorough": {'checks': 500000, 'shards': 14, 'timeout': 3600, 'shrinktime': '60s'},
+        "assumptions": ['map iteration order is not promised: multi-entry map ranges are compared as multisets, and nothing consumable is ranged inside them', 'open channels are not generated (would block by design)', 'zero-valued structs/arrays and -0.0 are not used as conditions; nil elements of []interface{} are not printed'],
+    },
 }
